@@ -8,7 +8,8 @@
    controller of the region whose resource is rho. *)
 From Coq Require Import List NArith ZArith Permutation.
 Import ListNotations.
-From Synnax Require Import Cesium.Control Cesium.ControlProofs.
+From Synnax Require Import Cesium.Control Cesium.ControlProofs Cesium.ControlMonitor
+  Cesium.ControlMonitorProofs.
 Local Open Scope N_scope.
 
 (* (1) At every moment the gate in control of a region is an open gate of that region with the
@@ -22,6 +23,21 @@ Theorem C05_leader_inv : forall shared ops r,
     pos_sorted (r_gates r).
 Proof. exact leader_inv. Qed.
 Print Assumptions C05_leader_inv.
+
+(* (1b) "Earliest open" is the order of the script: [c_live] is exactly the list of handles whose
+   OpenGate succeeded and that were not released since, in order of open ([live_spec] replays
+   that bookkeeping from the calls and their results), and the gates of every region are the
+   sub-list of it — so a smaller position (1) means an earlier successful open. *)
+Theorem C05_gates_in_open_order : forall shared ops,
+  let s := run true shared init ops in
+  c_live s = live_spec [] ops (outs true shared init ops) /\
+  forall r, In r (c_regions s) -> map g_h (r_gates r) = restr (map g_h (r_gates r)) (c_live s).
+Proof.
+  intros shared ops s. split.
+  - exact (run_live shared ops init).
+  - exact (gates_in_open_order shared ops).
+Qed.
+Print Assumptions C05_gates_in_open_order.
 
 (* (2) Go iterates region.gates (a map) in an arbitrary order inside release and update.  Whatever
    permutation each individual call uses, the run is the one computed with list order — so
@@ -79,6 +95,38 @@ Proof.
 Qed.
 Print Assumptions C05_transfers_reconstruct.
 
+(* (5b) Writes. In the writer layer over the controller (one write = Authorize, then append) a
+   write is persisted exactly when its gate authorizes — by (3): the controlling writer, or on a
+   shared channel a writer of equal authority — and is then reported authorized; any other write
+   is reported unauthorized and changes neither the stored data nor the control state. *)
+Theorem C05_write_iff_authorized : forall shared s w n,
+  let r := e2e_step shared s (EWrite w n) in
+  e_ctl (fst r) = e_ctl s /\
+  (existsb (N.eqb w) (c_live (e_ctl s)) = true /\ fst (authorize shared (e_ctl s) w) = true ->
+     e_store (fst r) = e_store s ++ stamps (e_next s) (N.to_nat (N.max n 1)) /\
+     snd (fst (snd r)) = 1) /\
+  (existsb (N.eqb w) (c_live (e_ctl s)) = false \/ fst (authorize shared (e_ctl s) w) = false ->
+     e_store (fst r) = e_store s /\ snd (fst (snd r)) <> 1).
+Proof.
+  intros shared s w n. unfold e2e_step.
+  destruct (existsb (N.eqb w) (c_live (e_ctl s))) eqn:Lv; simpl.
+  - destruct (fst (authorize shared (e_ctl s) w)) eqn:Az; simpl.
+    + split; auto. split; auto. intros [|]; discriminate.
+    + split; auto. split; [intros [_ ?]; discriminate|]. intros _. split; auto. discriminate.
+  - split; auto. split; [intros [? _]; discriminate|]. intros _. split; auto. discriminate.
+Qed.
+Print Assumptions C05_write_iff_authorized.
+
+(* (5c) The decidable monitor [ok_trace] — the statement of this property on what a caller can
+   observe (after every call: the returned transfer, Authorize of every open gate with its
+   subject/authority/resource, LeadingState), which the check applies to the IMPLEMENTATION —
+   accepts every history of the model: clauses (1),(3),(4),(5) in observable form, for all
+   histories.  (So the monitor can only reject an implementation that differs from the model.) *)
+Theorem C05_monitor_accepts_model : forall shared ops,
+  ok_trace shared (MS [] [] []) (combine ops (model_trace true shared init ops)) = true.
+Proof. exact monitor_accepts_model. Qed.
+Print Assumptions C05_monitor_accepts_model.
+
 (* (6) Schedules: whatever the interleaving of the calls issued by concurrent goroutines, as long
    as each call is one atomic step (in Go: controller.mu / region.RWMutex; that the locks give
    this atomicity is validated by the harness, not proved), the history is one of the sequences
@@ -111,7 +159,9 @@ Theorem C05_upstream_open_refuted :
   exists r, In r (c_regions s) /\ r_curr r = Some 2 /\ existsb (N.eqb 2) (c_live s) = false /\
             has_gate 0 r = true /\ existsb (N.eqb 0) (c_live s) = true /\
             fst (authorize false s 0) = false /\
-            out_st (last (outs false false init f14_ops) (Out Ok false X0 0)) = Multi.
+            out_st (last (outs false false init f14_ops) (Out Ok false X0 0)) = Multi /\
+            ok_trace false (MS [] [] [])
+                     (combine f14_ops (model_trace false false init f14_ops)) = false.
 Proof.
   eexists. split; [left; reflexivity|]. vm_compute. repeat split.
 Qed.
